@@ -10,7 +10,7 @@ using namespace hc;
 using vt::Ev;
 
 static const int NS = 10, NB = 4;
-static void do_deser(vt::Rng& g, int b);
+static void do_deser(vt::Rng& g, int b, int want_dst = -1, int want_stream = -1);
 struct Group { std::vector<Item> items; long version = 0; bool crafted = false; };   // crafted: holds coupons no item can reproduce
 struct Obj { std::unique_ptr<hll_sketch> s; int grp = -1; bool restored = false; };
 struct Blob { bool crafted = false; bool live = false; std::vector<uint8_t> bytes; bool compact = false; int grp = -1; long version = 0; std::vector<Item> items; };
@@ -75,12 +75,12 @@ static int pick_live(vt::Rng& g) { for (;;) { int i = (int)g.below(NS); if (obj[
 static int pick_dst(vt::Rng& g, int avoid) { for (;;) { int i = 4 + (int)g.below(NS - 4); if (i != avoid) return i; } }
 
 // deserialize blob b (or a random live one) into a free slot, bytes or stream path (16 sentinel bytes appended)
-static void do_deser(vt::Rng& g, int b) {
+static void do_deser(vt::Rng& g, int b, int want_dst, int want_stream) {
   if (b < 0) b = (int)g.below(NB);
   if (!blob[b].live) return;
   Blob& bl = blob[b];
-  int dst = pick_dst(g, -1);
-  bool stream = g.chance(50);
+  int dst = want_dst >= 0 ? want_dst : pick_dst(g, -1);
+  bool stream = want_stream >= 0 ? want_stream != 0 : g.chance(50);
   long long consumed;
   std::unique_ptr<hll_sketch> n;
   if (!stream) {
@@ -163,6 +163,48 @@ static bool uniform_fill(vt::Rng& g, const Mined& mined, const Pool& pool, int g
   return true;
 }
 
+// Directed C09 segment (present in every file): restore from the EMPTY state, from the state right after reset() and from
+// exactly ONE item, in every form (compact / updatable) through every path (bytes / stream), for HLL_4/6/8 with start_full_size
+// off and on; every restored sketch then CONTINUES in lock-step with its source through list, set and HLL mode (is_empty, mode,
+// registers / coupons at Obs, estimates equal to the source's).
+static void restore_rounds(vt::Rng& g, int g0, int lgk, long wide) {
+  long k = 1L << lgk;
+  long promo = lgk < 8 ? 8 : 3 * k / 32 + 1;
+  auto feed1 = [&](const Item& it) { groups[g0].items.push_back(it); groups[g0].version++; emit_update(members(g0), it); };
+  for (int round = 0; round < 3; round++) {
+    if (round > 0) {                                   // round 1: the state right after reset(); round 2: reset, then one item
+      auto ids = members(g0);
+      groups[g0].items.clear(); groups[g0].version++; groups[g0].crafted = false;
+      for (int id : ids) {
+        obj[id].s->reset();
+        View v = view(*obj[id].s, false);
+        Ev e("Reset"); e.i("id", id).i("mode", v.mode).b("empty", obj[id].s->is_empty());
+        if (obj[id].restored) e.b("restored", true);
+        e.emit(); g_budget--;
+      }
+    }
+    if (round == 2) { Item it; do it = draw(g, wide); while ((it.type == 10 && it.sv.empty())); feed1(it); }
+    // four restores per round: sources rotate over the six originals, (form, path) over the four combinations
+    for (int slot = 0; slot < 4; slot++) {
+      int src = (round * 2 + slot + (int)g.below(2) * 3) % 6;
+      if (!obj[src].s || obj[src].restored) src = slot % 4;
+      int combo = (slot + round) % 4;
+      int b = do_ser(g, src, combo & 1);
+      do_deser(g, b, 6 + slot, combo >> 1);
+    }
+    emit_obs(members(g0));
+    // continue: across the promotion points, with duplicates, observing on the way
+    long n = std::min(2 * promo + 40, 260L);
+    for (long j = 0; j < n; j++) {
+      Item it = draw(g, wide);
+      if (g.chance(8) && !groups[g0].items.empty()) it = groups[g0].items[g.below(groups[g0].items.size())];
+      feed1(it);
+      if (j == 0 || j == 7 || j == promo - 1 || j == promo || j % 50 == 49) emit_obs(members(g0));
+    }
+    emit_obs(members(g0));
+  }
+}
+
 // Plant mined groups (hll_common.hpp Mined) into the base lock-step group, with an observation on both sides:
 //   a pair of DISTINCT coupons with the same 26-bit address (larger value first or last), a pair of distinct items with the
 //   identical coupon, a same-slot group with different addresses (equal and different values), and high-value steering items
@@ -225,6 +267,8 @@ int main(int argc, char** argv) {
     int serde_pct = high ? 0 : serde_arg;
     if (high) lgk = (uint8_t)g.range(hilo, hihi);
     else if (seg == 1) lgk = (uint8_t)g.range(std::max(4L, minlgk), std::max(minlgk, std::min(maxlgk, 7L)));
+    bool restore_seg = !high && seg == 3;     // directed C09 segment: restore at empty / after reset / one item, then continue
+    if (restore_seg) lgk = (uint8_t)g.range(std::max(4L, minlgk), std::max(minlgk, std::min(maxlgk, 9L)));
     long k = 1L << lgk;
     g_budget = high ? 260 : events + (lgk <= 6 ? 0 : (long)g.range(0, events / 2));
     long wide = std::max(64L, (long)(g_budget * (g.chance(30) ? 0.2 : 2.0)));   // narrow ranges give duplicate-heavy streams
@@ -235,7 +279,7 @@ int main(int argc, char** argv) {
     // crafted segment (segment 2 of a file and 15 % of the others, lg_k <= 10): the three lock-step sketches are deserialized from
     // hand-written coupon-list images holding coupon values 32..63 (kxq1, aux exceptions far above cur-min, bit 5 of the 6-bit
     // slots); two coupons share a slot so that the promotion replay overwrites a value >= 32 with a larger one
-    bool crafted = !high && lgk <= 10 && (seg == 2 || g.chance(15));
+    bool crafted = !high && !restore_seg && lgk <= 10 && (seg == 2 || g.chance(15));
     if (crafted) {
       auto cs = craft_coupons(g, lgk);
       for (int i = 0; i < 3; i++) {
@@ -249,16 +293,19 @@ int main(int argc, char** argv) {
     for (int i = 0; i < 3; i++) { obj[i].s.reset(new hll_sketch(lgk, tt(T3[i]), false)); obj[i].grp = g0; emit_new(i); }
     int t3 = T3[g.below(3)];
     obj[3].s.reset(new hll_sketch(lgk, tt(t3), true)); obj[3].grp = crafted ? new_group({}) : g0; emit_new(3);
-    if (high) {
+    if (high || restore_seg) {      // start_full_size sketches of all three types
       int at = 4;
       for (int t : T3) if (t != t3) { obj[at].s.reset(new hll_sketch(lgk, tt(t), true)); obj[at].grp = g0; emit_new(at); at++; }
+    }
+    if (high) {
       // items whose address has all top bits set: slots >= 2^16 and the last slots of the array
       auto ta = mined.top_addr();
       for (int n = 0; n < 8 && !ta.empty(); n++) { Item it = mined.item(ta[g.below(ta.size())], g); groups[g0].items.push_back(it); groups[g0].version++; emit_update(members(g0), it); }
       emit_obs(members(g0));
     }
     // uniform fill first (small lg_k): always in segment 1 of a file, otherwise in 40 % of the small segments
-    if (!high && !crafted && lgk <= 7 && (seg == 1 || g.chance(40))) {
+    if (restore_seg) restore_rounds(g, g0, lgk, wide);
+    if (!high && !crafted && !restore_seg && lgk <= 7 && (seg == 1 || g.chance(40))) {
       if (t3 != 4 && !obj[4].s) { obj[4].s.reset(new hll_sketch(lgk, HLL_4, true)); obj[4].grp = g0; emit_new(4); }   // a start_full_size HLL_4 in any case
       uniform_fill(g, mined, pool, g0, lgk);
     }
